@@ -19,6 +19,8 @@ pub struct StoreRun {
     storage: *mut dyn Storage,
     txn: Option<Box<dyn StorageTxn + Send + 'static>>,
     pub did_sync_complete: bool,
+    /// calls the generator has decided on in advance (blocks that only mean something as a whole)
+    pub script: std::collections::VecDeque<String>,
 }
 
 fn canon_tasks(v: Vec<(Uuid, TaskMap)>) -> String {
@@ -66,11 +68,11 @@ impl StoreRun {
             let dir = tempfile::TempDir::new_in(crate::work_dir()).unwrap();
             let mut st = Box::new(block_on(SqliteStorage::new(dir.path(), AccessMode::ReadWrite, true)).unwrap());
             let p: *mut dyn Storage = &mut *st;
-            StoreRun { backend: Backend::Sql(Some(st), dir), storage: p, txn: None, did_sync_complete: false }
+            StoreRun { backend: Backend::Sql(Some(st), dir), storage: p, txn: None, did_sync_complete: false, script: Default::default() }
         } else {
             let mut st = Box::new(InMemoryStorage::new());
             let p: *mut dyn Storage = &mut *st;
-            StoreRun { backend: Backend::Mem(st), storage: p, txn: None, did_sync_complete: false }
+            StoreRun { backend: Backend::Mem(st), storage: p, txn: None, did_sync_complete: false, script: Default::default() }
         }
     }
 
@@ -278,6 +280,40 @@ fn downgrade_db(path: &std::path::Path, ver: &str) {
 
 /// generate the next call from the state of the (mem) run
 pub fn gen_line(run: &mut StoreRun, rng: &mut Rng, allow_downgrade: bool) -> String {
+    if run.in_txn() {
+        if let Some(l) = run.script.pop_front() {
+            return l;
+        }
+        if rng.chance(1, 25) {
+            // operations of a task are synchronized, the task then vanishes without a further operation
+            // (what applying another replica's Delete does), and the next sync_complete must forget its
+            // operations — on both backends, also after a reopen
+            let un = 1 + rng.below(4);
+            let k = enc_str(*rng.pick(&["k", "status"]));
+            let mut b: Vec<String> = vec![
+                format!("create_task {}", un),
+                format!("add_operation create {}", un),
+                format!("add_operation update {} {} - {} 100 0", un, k, enc_str("v")),
+                "sync_complete".into(),
+                format!("get_task_operations {}", un),
+            ];
+            if rng.chance(1, 2) {
+                b.push("commit".into());
+                b.push("BEGIN".into());
+            }
+            b.push(format!("delete_task {}", un));
+            if rng.chance(1, 2) {
+                b.push(format!("add_operation update {} {} - {} 101 0", 1 + un % 4, k, enc_str("w")));
+            }
+            b.push("sync_complete".into());
+            b.push(format!("get_task_operations {}", un));
+            b.push("commit".into());
+            run.script = b.into();
+            return run.script.pop_front().unwrap();
+        }
+    } else if let Some(l) = run.script.pop_front() {
+        return l;
+    }
     if !run.in_txn() {
         let r = rng.below(20);
         if r == 0 {
